@@ -87,18 +87,24 @@ def run(tier, seed):
         def gen_sample(self):
             k = self.config['slopes'][self.k % len(self.config['slopes'])]
             self.k += 1
+            self.seen = getattr(self, 'seen', []) + [k]
             return lambda x, k=k: k * x
 
     for n in (2, 3, 5):
         for fe in (0, 1):
-            for stu, want in (('f(2) + 1', True), ('1 + f(2)', True), ('f(1)*2 + 1', True), ('3', False), ('f(2)', False)):
-                g = fgm.FormulaGrader(answers='f(2) + 1', user_functions={'f': ReplayFn(slopes=[1.0, 2.0, 3.0, 4.0, 5.0])}, samples=n, failable_evals=fe)
+            for stu, val in (('f(2) + 1', lambda k: 2 * k + 1), ('1 + f(2)', lambda k: 2 * k + 1), ('f(1)*2 + 1', lambda k: 2 * k + 1),
+                             ('3', lambda k: 3), ('f(2)', lambda k: 2 * k)):
+                rep = ReplayFn(slopes=[1.0, 2.0, 3.0, 4.0, 5.0])
+                g = fgm.FormulaGrader(answers='f(2) + 1', user_functions={'f': rep}, samples=n, failable_evals=fe)
                 got = g(None, stu)['ok']
+                used = rep.seen[-n:]
+                failures = sum(1 for k in used if abs((2 * k + 1) - val(k)) > 1e-9)
+                want = failures <= fe
                 key = ('sampled function only', n, fe, stu)
                 if got is want:
-                    t.ok('same sample for author and student', key, sample={'answer': 'f(2) + 1', 'student': stu, 'samples': n, 'ok': got})
+                    t.ok('same sample for author and student', key, sample={'answer': 'f(2) + 1', 'student': stu, 'samples': n, 'slopes used': used, 'ok': got})
                 else:
-                    t.fail('same sample for author and student', key, "answer 'f(2) + 1' student %r samples=%d failable_evals=%d (f sampled as x -> k*x, k=1..5): ok=%r expected %r" % (stu, n, fe, got, want))
+                    t.fail('same sample for author and student', key, "answer 'f(2) + 1' student %r samples=%d failable_evals=%d (f sampled as x -> k*x, k in %r): ok=%r but %d samples disagree" % (stu, n, fe, used, got, failures))
     # percentage relative to the author's value; infinities
     ng = fgm.NumericalGrader
     for ans, stu, tol, want in (('10', '10.9', '10%', True), ('10', '11.04', '10%', False), ('10', '9.04', '10%', True), ('10', '8.9', '10%', False),
